@@ -88,10 +88,11 @@ class Gen:
         }
         self.POINT = ("tup", "Point", ("x", "y"), ("int", "int"))
         self.imported = set()       # modules imported so far by an ACCEPTED line
+        self.f85_budget = 0
         self.touched_by_reject = set()
         self.stats = dict(bind=0, destructure=0, shadow=0, alias=0, function=0, capture=0, call=0, value=0,
                           consume_prev=0, nil=0, import_=0, reject_parse=0, reject_compile=0, binary_bind=0,
-                          alias_use=0, module_use=0, reject_after_import=0, reject_after_first_import=0,
+                          alias_use=0, f85_shapes_left_in=0, module_use=0, reject_after_import=0, reject_after_first_import=0,
                           module_use_after_rejected_import=0)
 
     # ------------------------------------------------------------------ helpers
@@ -225,15 +226,16 @@ class Gen:
         self.bind(name, t, v, src=s)
         self.add_step(src, "ok", VOK, "bind", binds=[name])
 
-    def step_destructure(self):
+    def step_destructure(self, force=None):
         rng = self.rng
         t = self.rand_type(0)
-        while t in ("int", "bin"):
+        while t in ("int", "bin") or (force and not (any(ft in ("int", "bin") for ft in t[3]) and len(t[3]) >= 2)):
             t = self.rand_type(0)
         s, v = self.expr(t)
-        form = rng.choice(["full", "full", "partial", "star", "placeholder", "nested-literal"])
+        form = force or rng.choice(["full", "full", "partial", "star", "placeholder", "nested-literal"])
         labelled = all(t[2]) and len(set(t[2])) == len(t[2])
         names = []
+        has_lit = False
         if form in ("partial", "star") and (not labelled or any(l in self.tupled for l in t[2])):
             form = "full"
         if form == "star":
@@ -252,6 +254,7 @@ class Gen:
                     p = "_"
                 elif form == "nested-literal" and ft in ("int", "bin") and rng.random() < 0.4:
                     p = str(fv[1]) if ft == "int" else "0x" + fv[1].hex()   # matching literal
+                    has_lit = True
                 else:
                     n = self.pick_name()
                     while n in used:
@@ -269,6 +272,16 @@ class Gen:
         for n, ft, fv in names:
             self.bind(n, ft, fv)
             self.tupled.add(n)      # (binders of a destructuring pattern carry a narrowing as well)
+            if has_lit:
+                # F85: the binders of a match that can fail are recorded as T | [] and only the next
+                # step of the SAME line narrows the nil away, so a later line cannot use them as T.
+                # They stay bound (and observed), but no later step mentions them; a capped number
+                # of histories keeps them usable so that the classifier of F85 is exercised.
+                if self.f85_budget > 0:
+                    self.f85_budget -= 1
+                    self.stats["f85_shapes_left_in"] += 1
+                else:
+                    self.vars.pop(n, None)
         self.add_step(src, "ok", VOK, "destructure", binds=[n for n, _, _ in names])
         if form == "nested-literal":
             # a literal inside the pattern makes the step fallible: a line containing it has a result
@@ -525,6 +538,8 @@ class Gen:
             self.step_module("m" if which == "mtype" and rng.random() < 0.3 else which)
             if rng.random() < 0.6:
                 self.step_call()
+        if self.f85_budget > 0:
+            self.step_destructure(force="nested-literal")
         while len(self.items) < n_items:
             k = rng.choices(names, ws)[0]
             {"bind": self.step_bind, "destructure": self.step_destructure, "alias": self.step_alias,
@@ -731,7 +746,7 @@ def check_history(items, prefix_out, sessions, splits):
             raise Problem("impl-violation", "the session stopped early (panic, worker error or timeout)",
                           dict(lines=[l for l, _ in lines], session=out[:3000]))
         prev_obs = None
-        for (src, j), d in zip(lines, sess):
+        for li, ((src, j), d) in enumerate(zip(lines, sess)):
             it = items[j]
             oc = d["outcome"]
             if len(d) < 5:
@@ -755,9 +770,21 @@ def check_history(items, prefix_out, sessions, splits):
                     raise Problem("impl-violation", "an alias-only line changed variables or the stored result",
                                   dict(lines=[l for l, _ in lines], at=src))
             else:
-                if oc[0] in ("compile-error", "parse-error") and not nil_before[j] and prefix_out.get(j, [None])[0] == "ok":
-                    raise Problem("impl-violation", "the REPL rejects a line that is accepted as the same step of the one program: %s" % json.dumps(oc),
-                                  dict(lines=[l for l, _ in lines], at=src, one_program=prefix_out[j], program=one_program(items, j)))
+                if oc[0] in ("compile-error", "parse-error"):
+                    accepted = not nil_before[j] and prefix_out.get(j, [None])[0] == "ok"
+                    nilable = [x[0] for x in d.get("types", []) if is_nilable_type(x[1]) and re.search(r"(?<![\w.%%'])%s(?![\w?!])" % re.escape(x[0]), src)]
+                    if accepted or nilable:
+                        # (after a nil-valued step there is no one-program value to compare with: the
+                        # rejection is then only examined for F85, otherwise it is a generator matter)
+                        pr = Problem("impl-violation" if accepted else "generator",
+                                     "the REPL rejects a line that is accepted as the same step of the one program: %s" % json.dumps(oc) if accepted
+                                     else "a generated step was not evaluated: %s" % json.dumps(oc),
+                                     dict(lines=[l for l, _ in lines], at=src, one_program=prefix_out.get(j) if accepted else None,
+                                          program=one_program(items, j)))
+                        if nilable:
+                            pr.f85 = dict(cuts=cuts, li=li, nilable=nilable, sess=sess, want=prefix_out[j] if accepted else None)
+                            pr.detail["variables_recorded_with_nil"] = {x[0]: x[1] for x in d.get("types", []) if x[0] in nilable}
+                        raise pr
                 if oc[0] != "ok":
                     raise Problem("impl-violation" if oc[0] in ("err", "panic", "env-error", "timeout") else "generator",
                                   "a generated step was not evaluated: %s" % json.dumps(oc), dict(lines=[l for l, _ in lines], at=src))
@@ -783,6 +810,62 @@ def check_history(items, prefix_out, sessions, splits):
     return compared
 
 
+def is_nilable_type(ty):
+    """`T | []`: nil is a top-level member of the formatted type."""
+    depth, cur, members = 0, "", []
+    for ch in ty:
+        if ch in "([<":
+            depth += 1
+        elif ch in ")]>":
+            depth -= 1
+        if ch == "|" and depth == 0:
+            members.append(cur.strip())
+            cur = ""
+        else:
+            cur += ch
+    members.append(cur.strip())
+    return len(members) >= 2 and "[]" in members
+
+
+F85_WHAT = ("nil-narrowing established by a step's success does not carry across REPL lines: a later line that needs the "
+            "non-nil type is rejected although the same step is accepted in the one program")
+
+
+def classify_f85(ctx, exe, items, workers, mods, pr):
+    """True exactly when the rejection `pr` (REPL rejects a line the one program accepts) is F85:
+    (1) the rejected line mentions a variable whose type recorded by the REPL is `T | []`;
+    (2) control session: the same history with the lines from the one that bound those variables up
+        to the rejected one entered as ONE line (aliases of that span first, rejected lines of the span
+        dropped) — there the `,` after the binding step narrows the nil away — accepts the line and
+        yields the one-program value. Anything else still alarms."""
+    f = getattr(pr, "f85", None)
+    if not f:
+        return False
+    lines = lines_of(items, f["cuts"])
+    sess, li = f["sess"], f["li"]
+    k = li
+    for v in f["nilable"]:
+        kv = None
+        for q in range(li - 1, -1, -1):
+            binds = dict((b[0], int(b[1])) for b in sess[q].get("binds", []))
+            before = len(sess[q - 1].get("binds", [])) if q > 0 else 0
+            if v in binds and binds[v] >= before and sess[q]["outcome"][0] == "ok":
+                kv = q
+                break
+        if kv is None:
+            return False
+        k = min(k, kv)
+    first_item = lines[k - 1][1] + 1 if k > 0 else 0
+    span = items[first_item:lines[li][1] + 1]
+    control = [l for l, _ in lines[:k]] + [it["src"] for it in span if it["kind"] == "alias"] + \
+              [", ".join(it["src"] for it in span if it["kind"] == "step")]
+    _, outs = ctx.run_bin(exe, [hist_case(workers, control, mods)])
+    cs = parse_session(outs[0]) if outs else None
+    if not cs or len(cs) != len(control):
+        return False
+    return cs[-1]["outcome"] == f["want"] if f["want"] is not None else cs[-1]["outcome"][0] == "ok"
+
+
 def run_real(ctx, exe, items, workers, limit, rng, mods=None):
     """Cases for one history: the one-program prefixes, one REPL session per splitting and, when the
     history has rejected lines, a last "twin" session in which they were never entered (finest split)."""
@@ -800,7 +883,7 @@ def evaluate_batch(ctx, exe, batch):
     lines = []
     for b in batch:
         lines += b["ocases"] + b["hcases"]
-    _, outs = ctx.run_sharded(exe, lines, shards=min(16, max(1, len(lines) // 8)))
+    _, outs = ctx.run_sharded(exe, lines, shards=min(int(os.environ.get("VERIF_JOBS", "16")), max(1, len(lines) // 8)))
     res, pos = [], 0
     for b in batch:
         no, nh = len(b["ocases"]), len(b["hcases"])
@@ -830,6 +913,8 @@ def shrink(ctx, exe, items, workers, rng, mods=None):
         try:
             check_history(its, res[0], res[1], splits)
         except Problem as p:
+            if classify_f85(ctx, exe, its, workers, mods, p):
+                return None
             return p if p.kind == "impl-violation" else None
         return None
     best = items
@@ -848,7 +933,7 @@ def shrink(ctx, exe, items, workers, rng, mods=None):
 def known_probes(ctx, exe):
     """Probes of the known findings: F51/F52 (property C11) are routed through ctx.violation with their
     finding key (suppressed while listed as known; a probe that no longer misbehaves reports nothing);
-    F53/F54 belong to C01 and are only recorded as related evidence."""
+    F53/F54 belong to C01 and are only recorded as related evidence; F85 probes go through classify_f85."""
     related = {}
     for line in corpus("c11_known.txt"):
         c = json.loads(line)
@@ -859,6 +944,28 @@ def known_probes(ctx, exe):
         ocs = [d["outcome"] for d in sess]
         one = sexpr.parse(outs[1]) if len(outs) > 1 else None
         fid = c["finding"]
+        if fid == "F85":
+            items = [dict(kind="step", src=l, what="probe", expect=None) for l in c["lines"]]
+            splits = [set(range(1, len(items)))]
+            idx = list(range(len(items)))
+            (res,), _ = evaluate_batch(ctx, exe, [dict(ocases=[one_case(w, one_program(items, j)) for j in idx],
+                                                        hcases=[hist_case(w, c["lines"])], idx=idx)])
+            still, classified = False, False
+            try:
+                check_history(items, res[0], res[1], splits)
+            except Problem as pr:
+                still = True
+                classified = classify_f85(ctx, exe, items, w, None, pr)
+                if classified:
+                    ctx.violation({"kind": "impl-violation", "what": F85_WHAT, "history": c["lines"], "detail": pr.detail}, finding_key="F85")
+                elif not c.get("must_not_classify"):
+                    ctx.violation({"kind": "impl-violation", "what": pr.what, "history": c["lines"], "detail": pr.detail})
+            related.setdefault("F85", []).append(dict(lines=c["lines"], still_present=still, classified_as_F85=classified,
+                                                       expected_classification=not c.get("must_not_classify")))
+            if c.get("must_not_classify") and classified:
+                ctx.violation({"kind": "correspondence-broken", "correspondence": "F85 classifier", "what": "a rejection outside the F85 class was classified as F85",
+                               "history": c["lines"]}, no_input=True)
+            continue
         if fid == "F51":
             broken = len(sess) < len(c["lines"]) or any(o[0] in ("env-error", "panic", "timeout") for o in ocs) or \
                 any("env-error" in json.dumps(d.get("vars", [])) for d in sess)
@@ -898,6 +1005,8 @@ def run(ctx):
     for h in range(n_hist):
         g = Gen(rng, binaries=(h % 3 == 0))
         n_items = rng.choice([3, 4, 5, 6, 6, 7, 8, 10, 12])
+        if h % 12 == 7:
+            g.f85_budget = 3        # cap: ~8 % of the histories may run into F85 (classified, counted)
         items = g.history(n_items, scenario=(h % 4 == 1))
         workers = rng.choice([1, 2, 2, 3])
         splits, nfree, idx, oc, hc = run_real(ctx, exe, items, workers, ctx.n(32, 48), rng, g.mods)
@@ -908,6 +1017,7 @@ def run(ctx):
     results, nruns = evaluate_batch(ctx, exe, batch)
     compared = 0
     problems = 0
+    f85_hits = 0
     splits_compared = 0
     lines_run = 0
     nontrivial = set()
@@ -920,6 +1030,11 @@ def run(ctx):
             if len(b["splits"]) >= 2 and len(kinds) >= 3:
                 nontrivial.add(hashlib.sha1(json.dumps([it["src"] for it in b["items"]]).encode()).hexdigest())
         except Problem as p:
+            if classify_f85(ctx, exe, b["items"], b["workers"], b.get("mods"), p):
+                f85_hits += 1
+                ctx.violation({"kind": "impl-violation", "what": F85_WHAT, "workers": b["workers"], "mods": b.get("mods") or {},
+                               "history": [it["src"] for it in b["items"]], "detail": p.detail}, finding_key="F85")
+                continue
             problems += 1
             if problems <= 3:
                 if p.kind == "impl-violation":
@@ -978,6 +1093,8 @@ def run(ctx):
     problems += model_bad
     cov["evaluations"] = nruns + len(model_lines)
     cov["corpus_histories"] = n_corpus
+    cov["f85_shapes_left_in_generated_histories"] = stats_total.get("f85_shapes_left_in", 0)
+    cov["histories_classified_as_F85"] = f85_hits
     cov["sessions_without_the_rejected_lines_compared"] = sum(1 for b in batch if len(b["hcases"]) == len(b["splits"]) + 1)
     cov["rejected_after_import"] = stats_total.get("reject_after_import", 0)
     cov["rejected_after_first_import_of_a_module"] = stats_total.get("reject_after_first_import", 0)
@@ -1021,8 +1138,17 @@ def replay(ctx, exe):
     items = []
     for l, d in zip(lines, sess):
         oc = d["outcome"][0]
-        items.append(dict(kind="reject" if oc in ("parse-error", "compile-error") else ("alias" if oc == "none" else "step"),
-                          src=l, what="replay", expect=None, nil=d["outcome"] == ["ok", NIL]))
+        kind = "alias" if oc == "none" else "step"
+        if oc == "parse-error":
+            kind = "reject"
+        elif oc == "compile-error":
+            # a line the REPL rejects is a rejected line only if the one program rejects it too as the
+            # next step after the accepted lines so far; otherwise it is a step (and the check fails on it)
+            trial = items + [dict(kind="step", src=l)]
+            _, o = ctx.run_bin(exe, [one_case(w, one_program(trial, len(trial) - 1), mods)])
+            if not o or not o[0].startswith("(ok"):
+                kind = "reject"
+        items.append(dict(kind=kind, src=l, what="replay", expect=None, nil=d["outcome"] == ["ok", NIL]))
     items += [dict(kind="step", src=l, what="replay", expect=None) for l in lines[len(items):]]
     splits = [set(range(1, len(items)))]
     idx = [j for j, it in enumerate(items) if it["kind"] == "step"]
@@ -1035,5 +1161,8 @@ def replay(ctx, exe):
         check_history(items, res[0], res[1], splits)
         print("replay: no failure on the current tree")
     except Problem as p:
+        if classify_f85(ctx, exe, items, w, mods, p):
+            ctx.violation({"kind": "impl-violation", "what": F85_WHAT, "history": lines, "workers": w, "detail": p.detail}, finding_key="F85")
+            return
         ctx.violation({"kind": "impl-violation" if p.kind == "impl-violation" else "correspondence-broken", "what": p.what,
                        "history": lines, "workers": w, "detail": p.detail}, no_input=p.kind != "impl-violation")
